@@ -87,6 +87,12 @@ def dimsig(s):
     sig = f"{s['k']}/{s['prior']}/{s['tr']}"
     if s["k"] == "int" and s["prior"] == "log-uniform":
         sig += ",high>2^40" if s["hi"] > TWO40 else ",high<=2^40"
+    elif s["k"] == "int":
+        m = max(abs(s["lo"]), abs(s["hi"]))
+        if s["hi"] > 2 ** 63 - 1 or s["lo"] < -(2 ** 63):
+            sig += ",|bound|>=2^63"
+        elif m > 2 ** 53:
+            sig += ",|bound|>2^53"
     return sig
 
 
@@ -329,6 +335,48 @@ def gen_tpoint(rng, s, base_l):
     return [rng.choice([a, b, float(np.nextafter(b, a)), float(np.nextafter(a, b)), rng.uniform(a, b)])]
 
 
+_HUGE = [2 ** 53 + 1, 2 ** 54 + 2, 2 ** 60 + 3, 2 ** 61 + 1, 2 ** 62 + 12345, 2 ** 63 - 1]
+
+
+def gen_allint_case(rng):
+    """spaces whose transformed matrix is integer-typed (uniform/identity Integer, int Categorical): the property demands
+    exact round trips at huge magnitudes, and here no double is involved: up to +-(2**63 - 1) for Integer (np.int64),
+    any Python int for categories of an all-categorical space (object / index arrays)"""
+    nd = rng.choice([1, 1, 2, 3])
+    bigcat = rng.random() < 0.25  # categories beyond int64: only all-categorical spaces
+    dims = []
+    for _ in range(nd):
+        if bigcat or rng.random() < 0.35:
+            pool = _HUGE + [-(2 ** 62) - 3, -(2 ** 63 - 1), 0, 5, 7, -1] + ([2 ** 70, 2 ** 64 + 1, -(2 ** 65), 10 ** 30] if bigcat else [])
+            # label encoding of a list NumPy can only hold as an object array (ints beyond int64) numbers the categories in
+            # declaration order instead of np.unique order: not modelled, such lists get identity / one-hot only
+            dims.append({"k": "cat", "cats": rng.sample(pool, rng.choice([1, 2, 3, 5])),
+                         "tr": rng.choice(["identity", "onehot"] if bigcat else ["identity", "label", "onehot"])})
+        else:
+            fam = rng.choice(["pos", "sym", "narrow"])
+            if fam == "pos":
+                lo, hi = rng.choice([0, 1, 2 ** 53 - 5, 17]), rng.choice(_HUGE)
+            elif fam == "sym":
+                hi = rng.choice(_HUGE)
+                lo = rng.choice([-hi, -(2 ** 63 - 1), -(2 ** 63)])
+            else:
+                hi = rng.choice(_HUGE)
+                lo = hi - rng.choice([1, 2, 1000])
+            dims.append({"k": "int", "lo": lo, "hi": hi, "prior": "uniform", "tr": "identity"})
+    m = rng.choice([1, 2, 3, 6])
+    X = []
+    for _ in range(m):
+        row = []
+        for s in dims:
+            if s["k"] == "cat":
+                row.append(rng.choice(s["cats"]))
+            else:
+                c = [s["lo"], s["hi"], s["hi"] - 1, s["lo"] + 1, rng.randint(s["lo"], s["hi"])] + [v for v in _HUGE if s["lo"] <= v <= s["hi"]]
+                row.append(rng.choice(c))
+        X.append(row)
+    return {"dims": dims, "X": X}
+
+
 def gen_space_case(rng, maxdims=8, maxrows=50):
     nd = rng.choice([1, 1, 2, 2, 3, 4, 5, 6, 8][: max(1, maxdims)])
     base = 2 if rng.random() < 0.2 else 10
@@ -381,12 +429,30 @@ def real_space_run(case, space=None, prequery=False):
     if t.exc is None:
         Xt = np.asarray(t.val)
         res["inv"] = Out(lambda: sp.inverse_transform(Xt))
-        res["tn"] = Out(lambda: (sp.transformed_n_dims, [tuple(map(float, b)) for b in sp.transformed_bounds]))
+        res["tn"] = Out(lambda: (sp.transformed_n_dims, [tuple(map(exact_num, b)) for b in sp.transformed_bounds]))
     return res
 
 
+def exact_num(v):
+    """a matrix entry / bound as an exact Python number: integers stay integers (an all-integer space gives an int64
+    or object matrix: values above 2**53 must not go through a double)"""
+    if isinstance(v, (bool, np.bool_)):
+        return int(v)
+    if isinstance(v, (int, np.integer)):
+        return int(v)
+    return float(v)
+
+
+def matrix_rows(Xt):
+    """rows of exact Python numbers of what Space.transform returned"""
+    a = np.asarray(Xt)
+    if a.dtype.kind in "iubO":
+        return [[exact_num(v) for v in row] for row in a.tolist()]
+    return np.asarray(a, dtype=float).tolist()
+
+
 def rows_of_matrix(Xt):
-    return [[rat(float(v)) for v in row] for row in np.asarray(Xt, dtype=float).tolist()]
+    return [[rat(v) for v in row] for row in matrix_rows(Xt)]
 
 
 # --------------------------------------------------------------------------- oracle (L3) on one case
@@ -497,7 +563,8 @@ def report(ck, case, fails):
             clause, api, j, detail = sf[0]
         else:
             small = case
-        sig = (dimsig(small["dims"][j]) if j is not None else dimsig(small["dims"][0]) if len(small["dims"]) == 1
+        # a failure that no dimension reproduces on its own is a property of the combination: name all of it
+        sig = (dimsig(small["dims"][0]) if len(small["dims"]) == 1
                else "dims=" + "+".join(sorted({dimsig(s) for s in small["dims"]})))
         fp = f"C09|{clause}|{api}|{sig}"
         ck.fail(fp, f"{clause} fails for {api} on a {sig} dimension", small, detail)
@@ -534,19 +601,19 @@ def compare_transform(ck, case, run, rep):
     if "err" in res:
         ck.mismatch(case, {"what": "Space.transform", "impl": "returns", "model": res})
         return
-    Xt = np.asarray(t.val, dtype=float)
+    Xt = np.asarray(t.val)
     rows = res["rows"]
-    if [len(r) for r in rows] != [Xt.shape[1]] * Xt.shape[0] or len(rows) != Xt.shape[0]:
+    if Xt.ndim != 2 or [len(r) for r in rows] != [Xt.shape[1]] * Xt.shape[0] or len(rows) != Xt.shape[0]:
         ck.mismatch(case, {"what": "Space.transform shape", "impl": list(Xt.shape), "model": [len(rows), len(rows[0]) if rows else 0]})
         return
     owner = [j for j, s in enumerate(specs) for _ in range(tsize(s))]
-    for i, (mrow, rrow) in enumerate(zip(rows, Xt.tolist())):
+    for i, (mrow, rrow) in enumerate(zip(rows, matrix_rows(Xt))):
         for c, (mv, rv) in enumerate(zip(mrow, rrow)):
             s = specs[owner[c]]
             ex = unrat(mv)
             if exact_col(s):
                 # a single correctly rounded division (or no arithmetic at all)
-                good = math.isfinite(rv) and (Fraction(rv) == ex or float(ex) == rv)
+                good = math.isfinite(rv) and (Fraction(rv) == ex or (isinstance(rv, float) and float(ex) == rv))
             else:
                 good = math.isfinite(rv) and close_t(rv, ex)
             if not good:
@@ -555,8 +622,8 @@ def compare_transform(ck, case, run, rep):
     # transformed_n_dims / transformed_bounds
     if run["tn"].exc is None:
         ntd, tb = run["tn"].val
-        mb = [[float(unrat(a)), float(unrat(b))] for a, b in rep["bounds"]]
-        if ntd != rep["tsize"] or [list(b) for b in tb] != mb:
+        mb = [[unrat(a), unrat(b)] for a, b in rep["bounds"]]
+        if ntd != rep["tsize"] or [[Fraction(x) for x in b] for b in tb] != mb:
             ck.mismatch(case, {"what": "transformed_n_dims / transformed_bounds", "impl": [ntd, tb], "model": [rep["tsize"], mb]})
     if not all(rep["wf"]):
         ck.mismatch(case, {"what": "constructors accepted a dimension the model calls ill-formed", "wf": rep["wf"]})
@@ -637,8 +704,8 @@ def _space_requests(case, run):
     reqs = [("transform", {"op": "transform", "dims": wd, "X": [[tag(v) for v in r] for r in X], "L": l_table(specs, X)})]
     t = run.get("t")
     if t is not None and t.exc is None:
-        Xt = np.asarray(t.val, dtype=float)
-        if np.isfinite(Xt).all():
+        Xt = np.asarray(t.val)
+        if Xt.ndim == 2 and all(math.isfinite(v) for row in matrix_rows(Xt) for v in row):
             reqs.append(("inverse", {"op": "inverse", "dims": wd, "Xt": rows_of_matrix(Xt),
                                      "L": l_table(specs, X), "E": e_table(specs, Xt)}))
             inv = run["inv"]
@@ -1312,6 +1379,27 @@ def probe_big_integer_log(ck, d):
                 report(ck, case, fails)
 
 
+def probe_big_integer_uniform(ck, d):
+    """uniform integers above 2**53 are exact only while no double is involved (all-integer spaces, generated above).
+    Where the code goes through float64 (normalize, or a space with a real / one-hot... float column) or leaves np.int64
+    (bounds >= 2**63, accepted by the constructor) the float64 / int64 limits show: probed here on every run so that they
+    are reported (recorded findings), not hidden by the generators"""
+    B = 2 ** 60 + 3
+    probes = [
+        {"dims": [{"k": "int", "lo": 0, "hi": B, "prior": "uniform", "tr": "normalize"}], "X": [[B], [2 ** 53 + 1], [5]]},
+        {"dims": [{"k": "int", "lo": 0, "hi": B, "prior": "uniform", "tr": "identity"},
+                  {"k": "real", "lo": 0.0, "hi": 1.0, "prior": "uniform", "tr": "identity"}], "X": [[B, 0.5], [7, 0.25]]},
+        {"dims": [{"k": "int", "lo": 0, "hi": 2 ** 63, "prior": "uniform", "tr": "identity"}], "X": [[2 ** 63], [5]]},
+        {"dims": [{"k": "int", "lo": 0, "hi": 2 ** 64, "prior": "uniform", "tr": "identity"}], "X": [[2 ** 64], [5]]},
+    ]
+    for case in probes:
+        ck.case({"kind": "probe-big-int-uniform", **case})
+        ck.count("probe:int-uniform>2^53")
+        fails = oracle(case)
+        if fails:
+            report(ck, case, fails)
+
+
 def corpus_cases():
     d = common.VERIF / "corpus" / "C09"
     for f in sorted(d.glob("*.json")):
@@ -1321,7 +1409,8 @@ def corpus_cases():
 
 def run(ck):
     ck.rule = ("generated spaces of 1..8 mixed dimensions (real/int x uniform/log-uniform x identity/normalize, base 10 or 2; "
-               "bounds: unit, powers of the base, negative, magnitudes 1e-300..1e300, awkward (3e-5,7e3); ints up to 2^40; "
+               "bounds: unit, powers of the base, negative, magnitudes 1e-300..1e300, awkward (3e-5,7e3); ints up to 2^40 (log-uniform claim), "
+               "all-integer spaces with uniform ints up to +-(2^63-1) and int categories of any size; "
                "categories str/int/float/bool x label/onehot/normalize/identity(numeric)), 1..50 member rows on / next to the "
                "bounds and inside; arbitrary transformed points; malformed per-dimension calls; histories of 1-4 set_transformer "
                "switches (space string / per-dimension list / by type / dimension-level / save-normalize-restore, incl. the "
@@ -1345,6 +1434,13 @@ def run(ck):
             elif "X" in case:
                 run_space_case(ck, d, case, "corpus:" + name)
         probe_big_integer_log(ck, d)
+        probe_big_integer_uniform(ck, d)
+        for _ in range(ck.pick(150, 1500)):
+            case = gen_allint_case(rng)
+            for s in case["dims"]:
+                ck.count("dim:" + dimsig(s))
+            ck.count("allint-space")
+            run_space_case(ck, d, case, "allint-space")
         n_space = ck.pick(450, 6000)
         for _ in range(n_space):
             case = gen_space_case(rng)
